@@ -574,7 +574,7 @@ func (e *runtimeEnv) buildFuncNode(l *leafImpl, cfg *LeafCfg, wait time.Duration
 	type bstep func(b *flyt.NodeBuilder)
 	var steps []bstep
 	add := func(i int, opt any, st bstep) {
-		useOpt := cfg.Build == "option" || (cfg.Build == "mixed" && i%2 == 0)
+		useOpt := cfg.Build == "option" || (cfg.Build == "mixed" && i%2 == 0) || (cfg.Build == "mixed2" && i%2 == 1)
 		if useOpt {
 			opts = append(opts, opt)
 		} else {
@@ -820,13 +820,18 @@ func (e *runtimeEnv) buildBatchWith(b *batchImpl) *flyt.BatchNodeBuilder {
 		return flyt.Action(o.act), nil
 	}
 
-	var bb *flyt.BatchNodeBuilder
-	if cfg.Build == "option" {
-		bb = flyt.NewBatchNode(flyt.WithMaxRetries(cfg.Budget), flyt.WithWait(wait),
-			flyt.WithBatchConcurrency(cfg.Conc), flyt.WithBatchErrorHandling(!cfg.Stop))
-	} else {
-		bb = flyt.NewBatchNode()
+	// which settings are written as constructor options (the others through the builder's methods afterwards):
+	// "option" all, "builder"/"bare" none, "mixed" wait + error mode, "mixed2" budget + concurrency
+	var baseOpts []any
+	optBudget := cfg.Build == "option" || cfg.Build == "mixed2"
+	optWait := cfg.Build == "option" || cfg.Build == "mixed"
+	if optBudget {
+		baseOpts = append(baseOpts, flyt.WithMaxRetries(cfg.Budget), flyt.WithBatchConcurrency(cfg.Conc))
 	}
+	if optWait {
+		baseOpts = append(baseOpts, flyt.WithWait(wait), flyt.WithBatchErrorHandling(!cfg.Stop))
+	}
+	bb := flyt.NewBatchNode(baseOpts...)
 	native := cfg.Shape == "results" && cfg.Fb == "pass" && cfg.ExecVia == ""
 	if !native {
 		// prep through CustomNode.Prep and/or a custom fallback: give the batch builder a CustomNode built
@@ -838,10 +843,7 @@ func (e *runtimeEnv) buildBatchWith(b *batchImpl) *flyt.BatchNodeBuilder {
 		if cfg.Fb == "custom" {
 			opts = append(opts, flyt.WithExecFallbackFunc(fb))
 		}
-		if cfg.Build == "option" {
-			opts = append(opts, flyt.WithMaxRetries(cfg.Budget), flyt.WithWait(wait),
-				flyt.WithBatchConcurrency(cfg.Conc), flyt.WithBatchErrorHandling(!cfg.Stop))
-		}
+		opts = append(opts, baseOpts...)
 		// ExecVia: the exec function is installed on the CustomNode itself — through NewNode's options ("copt") or
 		// through NodeBuilder methods ("cbuilder") — instead of through the BatchNodeBuilder's own setters; the
 		// batch node is then `&BatchNode{CustomNode: NewNode(...).CustomNode}` as far as exec / fallback go
@@ -864,8 +866,11 @@ func (e *runtimeEnv) buildBatchWith(b *batchImpl) *flyt.BatchNodeBuilder {
 		}
 		bb.BatchNode.CustomNode = nb.CustomNode
 	}
-	if cfg.Build != "option" {
-		bb.WithMaxRetries(cfg.Budget).WithWait(wait).WithBatchConcurrency(cfg.Conc).WithBatchErrorHandling(!cfg.Stop)
+	if !optBudget {
+		bb.WithMaxRetries(cfg.Budget).WithBatchConcurrency(cfg.Conc)
+	}
+	if !optWait {
+		bb.WithWait(wait).WithBatchErrorHandling(!cfg.Stop)
 	}
 	if cfg.Shape == "results" {
 		bb.WithPrepFunc(prepRes)
@@ -958,6 +963,32 @@ func (e *runtimeEnv) connect(f *flyt.Flow, src int, action string, dst *int) {
 	f.Connect(e.nodes[src], flyt.Action(action), to)
 }
 
+// makeCtx creates the run's context according to the scenario's kind
+func (e *runtimeEnv) makeCtx(kind string) {
+	switch kind {
+	case "deadline":
+		e.ctx = newTestCtx("deadline")
+	case "cause": // cancelled with a custom cause: ctx.Err() is still context.Canceled and that is what must be matched
+		e.ctx = nil
+		c, stop := context.WithCancelCause(context.Background())
+		e.realCtx, e.realStop = c, func() { stop(errors.New("custom cancellation cause")) }
+	case "fardeadline": // a deadline far in the future, cancelled by hand long before it
+		e.ctx = nil
+		c, stop := context.WithDeadline(context.Background(), time.Now().Add(time.Hour))
+		e.realCtx, e.realStop = c, stop
+	case "child": // a child (with a value and a far timeout of its own) of the context that gets cancelled
+		e.ctx = nil
+		parent, stop := context.WithCancel(context.Background())
+		c, stop2 := context.WithTimeout(context.WithValue(parent, ctxKey{}, 1), 2*time.Hour)
+		e.realCtx, e.realStop = c, func() { stop(); stop2() }
+	default:
+		e.ctx = nil
+		e.realCtx, e.realStop = context.WithCancel(context.Background())
+	}
+}
+
+type ctxKey struct{}
+
 const runWatchdog = 10 * time.Second
 
 // flowHangs counts runs of this process that hit the watchdog; after a few, the remaining runs are reported
@@ -976,21 +1007,7 @@ func (e *runtimeEnv) runOnceVia(root int, via string) RunObs {
 	e.seenCtx = nil
 	e.mu.Unlock()
 	e.runStore = flyt.NewSharedStore()
-	switch e.sc.Kind {
-	case "deadline":
-		e.ctx = newTestCtx("deadline")
-	case "cause": // cancelled with a custom cause: ctx.Err() is still context.Canceled and that is what must be matched
-		e.ctx = nil
-		c, stop := context.WithCancelCause(context.Background())
-		e.realCtx, e.realStop = c, func() { stop(errors.New("custom cancellation cause")) }
-	case "fardeadline": // a deadline far in the future, cancelled by hand long before it
-		e.ctx = nil
-		c, stop := context.WithDeadline(context.Background(), time.Now().Add(time.Hour))
-		e.realCtx, e.realStop = c, stop
-	default:
-		e.ctx = nil
-		e.realCtx, e.realStop = context.WithCancel(context.Background())
-	}
+	e.makeCtx(e.sc.Kind)
 	if e.sc.Ctx0 == "done" {
 		e.cancelNow()
 	}
